@@ -50,7 +50,7 @@ Lemma lstep_flight c c' k0 : lstep c = Some c' -> steady (loop c) = true -> sock
   flight c' = flight c /\ steady (loop c') = true /\ sock c' = Some k0.
 Proof.
   unfold lstep, flight. intros H Hs Hk.
-  destruct (loop c) as [|wl| | |p| | |ver k| | | | |]; try discriminate Hs.
+  destruct (loop c) as [|wl| | |p| | | | |]; try discriminate Hs.
   - inversion H; subst; cbn. auto.
   - destruct (0 <? pipe c)%nat; [|destruct wl; [|discriminate]]; inversion H; subst; cbn; auto.
   - inversion H; subst; cbn. auto.
@@ -115,7 +115,7 @@ Proof.
   { assert (Hl : (i < length nmsgs)%nat) by (rewrite <- Hlen; apply nth_error_Some; congruence).
     destruct (nth_error nmsgs i) eqn:E; [eauto|]. apply nth_error_None in E. lia. }
   destruct Hn as [n Hn]. destruct (Hpub i p n Hp Hn) as (P1 & P2 & P3 & P4 & P5).
-  destruct (pstep_frame i p c c' Hs) as (Ew & Es & El & _ & _ & _ & Elen).
+  destruct (pstep_frame i p c c' Hs) as (Ew & Es & El & _ & _ & Elen).
   destruct (pstep_shape i p c c' k0 Hs Hk) as (p' & Epubs & Elog & Hcase).
   unfold HInv. rewrite El, Es, Elen. split; [assumption|]. split; [assumption|]. split; [assumption|].
   destruct Hcase as [(Epc & Efl & E1 & E2 & E3 & E4)|[(Epc & Efl & ->)|(N1 & N2 & Efl & E1 & E2 & E3 & E4 & E5)]].
